@@ -417,7 +417,13 @@ def explore(res, body, max_paths=2000, timeout_ms=30000, float_mode='regular', p
 
     def one(ex):
         CTX.reset(ex=ex, float_mode=float_mode, precision=precision, exact=exact)
-        return body(ex, PathProver(res, ex))
+        out_ = body(ex, PathProver(res, ex))
+        # vacuity guard (reachability twin): the path condition together with everything the harness assumed on this path must be
+        # satisfiable, otherwise every obligation proved on it holds vacuously; a mismatch makes the run inconclusive
+        res['twins'] += 1
+        if ex.feasible():
+            res['twins_ok'] += 1
+        return out_
     out = ex.run(one)
     st = ex.stats()
     res['paths'] += st['paths']
